@@ -483,6 +483,8 @@ def draw_nodes(
     node_size = _draw_arg_to_arr(node_size)
     node_fc = _draw_arg_to_arr(node_fc)
     node_lw = _draw_arg_to_arr(node_lw)
+    if isinstance(node_ec, dict):  # documented form (node_id: color) of `draw`
+        node_ec = [node_ec[n] for n in H.nodes]
 
     # avoid matplotlib scatter UserWarning "Parameters 'cmap' will be ignored"
     if isinstance(node_fc, str) or (
